@@ -76,6 +76,7 @@ type gate struct {
 var (
 	gatesMu sync.Mutex
 	gates   = map[string]*gate{}
+	gcDone  atomic.Int64 // completed passes of the concurrency quota's background collection (cq.gc.done)
 )
 
 func sink(point string, kv ...any) {
@@ -94,7 +95,11 @@ func sink(point string, kv ...any) {
 		procMu.Unlock()
 		return
 	}
-	if point != "limiter.after_inc" {
+	if point == "cq.gc.done" {
+		gcDone.Add(1)
+		return
+	}
+	if point != "limiter.after_inc" && point != "cq.inc.after_sadd" {
 		return
 	}
 	var req string
@@ -104,7 +109,8 @@ func sink(point string, kv ...any) {
 		}
 	}
 	gatesMu.Lock()
-	g := gates[req]
+	g := gates[point+"|"+req]
+	delete(gates, point+"|"+req) // a gate parks one passage of its yield point
 	gatesMu.Unlock()
 	if g == nil {
 		return
@@ -286,7 +292,7 @@ func main() {
 							r := &run{g: &gate{parked: make(chan struct{}), release: make(chan struct{})}, done: make(chan struct{})}
 							runs[i] = r
 							gatesMu.Lock()
-							gates[req] = r.g
+							gates["limiter.after_inc|"+req] = r.g
 							gatesMu.Unlock()
 							go func() {
 								defer close(r.done)
@@ -323,6 +329,101 @@ func main() {
 						}
 					}
 					for _, r := range runs { // schedule ended with requests still parked: let them finish
+						close(r.g.release)
+						<-r.done
+					}
+				case "cqsched":
+					// directed schedule on the concurrency quota: take i = transaction i asks for a slot and is parked at the yield
+					// point cq.inc.after_sadd (its slot is in the shared set, the request not registered yet); gc = the clock moves
+					// by the collection interval and one background collection pass runs; go i = transaction i continues;
+					// req i = a whole request; end i = its response.
+					type run struct {
+						g    *gate
+						done chan struct{}
+					}
+					runs := map[int]*run{}
+					now := int64(0)
+					reqcq := func(i int, txn string, id int64, after func()) {
+						b := tr.Stamp()
+						res := eng.Request(txn, "GET", "api.test/cq", nil)
+						out := outcome(res)
+						if out == "admit" {
+							admitted.Store(txn, true)
+						}
+						tr.AddAt(b, vh.Ev{"ev": "begin", "id": id, "op": "reqcq", "txn": txn, "out": out, "model_req": i})
+						tr.Add(vh.Ev{"ev": "end", "id": id})
+						if after != nil {
+							after()
+						}
+					}
+					for _, st := range e.Steps {
+						kind := fmt.Sprint(st[0])
+						i := 0
+						if len(st) > 1 {
+							i = int(st[1].(float64))
+						}
+						txn := fmt.Sprintf("h%d-q%d", hi, i)
+						switch kind {
+						case "take":
+							r := &run{g: &gate{parked: make(chan struct{}), release: make(chan struct{})}, done: make(chan struct{})}
+							runs[i] = r
+							gatesMu.Lock()
+							gates["cq.inc.after_sadd|"+txn] = r.g
+							gatesMu.Unlock()
+							id := uid.Add(1)
+							go reqcq(i, txn, id, func() { close(r.done) })
+							select {
+							case <-r.g.parked:
+							case <-r.done: // refused: the yield point is behind the slot take
+							case <-time.After(20 * time.Second):
+								vh.Die("cqsched: request %d neither parked nor returned", i)
+							}
+						case "go":
+							r := runs[i]
+							if r == nil {
+								vh.Die("cqsched: go before take for %d", i)
+							}
+							close(r.g.release)
+							select {
+							case <-r.done:
+							case <-time.After(20 * time.Second):
+								vh.Die("cqsched: request %d did not return", i)
+							}
+							delete(runs, i)
+						case "req":
+							reqcq(i, txn, uid.Add(1), nil)
+						case "end":
+							if _, ok := admitted.LoadAndDelete(txn); ok {
+								id := uid.Add(1)
+								b := tr.Stamp()
+								if msg := eng.Response(txn, "GET", "api.test/cq", 200, nil); msg != "" {
+									vh.Die("response: %s", msg)
+								}
+								tr.AddAt(b, vh.Ev{"ev": "begin", "id": id, "op": "endcq", "txn": txn})
+								tr.Add(vh.Ev{"ev": "end", "id": id})
+							}
+						case "gc":
+							for k := 0; len(eng.Clk.PendingTimers()) == 0; k++ { // the collector has armed its timer
+								if k > 50000 {
+									vh.Die("cqsched: the collection goroutine never armed its timer")
+								}
+								time.Sleep(100 * time.Microsecond)
+							}
+							before := gcDone.Load()
+							now += e.W
+							eng.Clk.Set(base.Add(time.Duration(now) * time.Second))
+							for k := 0; gcDone.Load() == before; k++ {
+								if k > 100000 {
+									vh.Die("cqsched: no collection pass within 10 s after the clock moved")
+								}
+								time.Sleep(100 * time.Microsecond)
+							}
+							tr.Add(vh.Ev{"ev": "adv", "d": e.W})
+						default:
+							vh.Die("cqsched: unknown step %q", kind)
+						}
+					}
+					for _, r := range runs {
 						close(r.g.release)
 						<-r.done
 					}
